@@ -158,6 +158,21 @@ func c13ProgramOnly(r *explore.Run, p *prog, depth int, tot *c12Totals, only map
 	if strings.HasPrefix(p.Sig, "F2/") || strings.HasPrefix(p.Sig, "F2L/") {
 		sc += "/" + f2Shape(p.Sig) // + the set of compound constructs in the tree
 	}
+	if strings.HasPrefix(p.Sig, "F13s/") {
+		// wrapping + the set of operations in the sequence
+		parts := strings.Split(p.Sig, "/")
+		set := map[string]bool{}
+		for _, o := range strings.Split(strings.TrimSuffix(parts[len(parts)-1], "."), ".") {
+			set[o] = true
+		}
+		var ops []string
+		for _, o := range []string{"cp", "pa", "ra", "rd", "sa", "sb", "sv", "wr"} {
+			if set[o] {
+				ops = append(ops, o)
+			}
+		}
+		sc = parts[0] + "/" + parts[1] + "/" + strings.Join(ops, "+")
+	}
 	if strings.HasPrefix(p.Sig, "F1/") {
 		sc = "F1/" + strings.Split(p.Sig, "/")[len(strings.Split(p.Sig, "/"))-1] // operand source (buf/let/var/fn/asg)
 	}
@@ -300,9 +315,9 @@ func runC13() int {
 	// pipeline) once (depth 1) on every tree of two reduced alphabets with a larger node budget, with
 	// function-local accumulators: stores to promotable locals under deeper nesting of if/else/return and
 	// of loop/break/continue
-	wide := []*wgen.Family{wgen.F2LMini(4, 1), wgen.F2LMini(4, 2), wgen.F2LMini(3, 4)}
+	wide := []*wgen.Family{wgen.F2LMini(4, 1), wgen.F2LMini(4, 2), wgen.F2LMini(3, 4), wgen.F13s(3)}
 	if r.Thorough() {
-		wide = []*wgen.Family{wgen.F2LMini(5, 1), wgen.F2LMini(5, 2), wgen.F2LMini(4, 4), wgen.F2L(4, true)}
+		wide = []*wgen.Family{wgen.F2LMini(5, 1), wgen.F2LMini(5, 2), wgen.F2LMini(4, 4), wgen.F13s(4), wgen.F2L(4, true)}
 	}
 	localPasses := map[string]bool{"InlineAll": true, "sroa": true, "mem2reg": true, "dce": true, "dxil-pipeline": true}
 	forEachProgram(r, wide, nil, func(p *prog) { c13ProgramOnly(r, p, 1, tot, localPasses) })
